@@ -472,7 +472,8 @@ def explains (final : Ctl) (ops : List Op) (sy : Symptom) (cause : Cause) : Bool
   | "health" => (cl == "health-built-before-service-known" && ob == sy.host) || stalePod
   | "locality" => (cl == "locality-built-before-node-change" && ob == sy.obj) || stalePod ||
       (cl == "pod-of-another-namespace-updated-after-slice-built" && (ob == sy.pod || ob == sy.pod2))
-  | "labels" => (cl == "labels-built-before-pod-label-change" && (ob == sy.pod || ob == sy.pod2)) || stalePod
+  | "labels" => (cl == "labels-built-before-pod-label-change" && (ob == sy.pod || ob == sy.pod2)) || stalePod ||
+      (cl == "pod-of-another-namespace-updated-after-slice-built" && (ob == sy.pod || ob == sy.pod2))
   | "identity" => stalePod || (cl == "pod-of-another-namespace-updated-after-slice-built" && (ob == sy.pod || ob == sy.pod2))
   | "extra" => cl == "endpoint-of-deleted-pod-kept" && ob == sy.obj
   | "missing" => cl == "waiting-address-differs-from-pod-ip" && ob == sy.obj
